@@ -1,6 +1,7 @@
 import PV.Model.RaInsert
 import PV.IC10.Machine
 import PV.Gen.Tables
+import PV.Proofs.Leaf
 /-!
 # C06 — calls return to their call site; arguments and results arrive intact   (partial)
 
@@ -119,5 +120,38 @@ theorem slots_in_stack : PV.Gen.returnValueAddress < PV.IC10.stackSize := by dec
 /-! non-vacuity -/
 example : addRaFixed "f" [⟨"f:", [], none⟩, ⟨"jal", ["g"], none⟩, ⟨"fend:", [], none⟩, ⟨"j", ["ra"], none⟩]
     = [⟨"f:", [], none⟩, pushRa, ⟨"jal", ["g"], none⟩, ⟨"fend:", [], none⟩, popRa, ⟨"j", ["ra"], none⟩] := by decide +kernel
+
+/-! ### leaf functions (bodies without a call): the static check `PV.Leaf.checkLeaf`, run on every real function body by
+`harness/c06.py` (`check-leaf`), implies that the body can only be left through `j ra` to the caller's return line -/
+
+section leaf
+open PV.IC10
+variable {R V : Type} [DecidableEq R] [Special R]
+
+/-- **a call to an accepted leaf body returns to the line after the call** (`PV.Leaf.call_leaf_returns`) -/
+theorem leaf_call_returns_to_call_site (sem : Sem V) (env : Env V) (P : List (Instr R V)) (lo hi : Nat)
+    (hsp : (Special.sp : R) ≠ Special.ra) (hck : PV.Leaf.checkLeaf sem P lo hi = true)
+    (hof : ∀ n, sem.toAddr (sem.ofNat n) = some n) (hlo : lo < hi)
+    (s : St R V) (c : Nat) (v : V) (d : Option R) (rest : List (Opnd R V)) (hh : s.halted = false) (hpc : s.pc = c)
+    (hi' : P[c]? = some ⟨.jal, d, Opnd.num v :: rest⟩) (hv : sem.toAddr v = some lo) (hd : d ≠ some Special.ra) :
+    ∀ n, (∀ k, k ≤ n → (run sem env P (k + 1) s).halted = true ∨ PV.Leaf.Inside lo hi (run sem env P (k + 1) s)) ∨
+         (∃ k, k < n ∧ PV.Leaf.Inside lo hi (run sem env P (k + 1) s) ∧
+                 run sem env P (k + 2) s = { run sem env P (k + 1) s with pc := c + 1 }) :=
+  (PV.Leaf.call_leaf_returns sem env P lo hi hsp hck hof hlo s c v d rest hh hpc hi' hv hd).2.2
+
+end leaf
+
+/-! non-vacuity: `jal 2 ; hcf ; s … ; j ra` — the body at lines 2..3 is accepted -/
+section leafdemo
+open PV.IC10
+instance : Special Nat := ⟨16, 17⟩
+def leafSem : Sem Int :=
+  { alu := fun _ _ => 0, cond := fun _ _ => false, toAddr := fun v => if v < 0 then none else some v.toNat,
+    ofNat := fun n => (n : Int), truthy := fun v => v != 0 }
+def leafP : List (Instr Nat Int) :=
+  [⟨.jal, none, [.num 2]⟩, ⟨.hcf, none, []⟩, ⟨.store "s", none, [.num 1]⟩, ⟨.jmp, none, [.reg 17]⟩]
+example : PV.Leaf.checkLeaf leafSem leafP 2 4 = true := by decide
+example : PV.Leaf.checkLeaf leafSem leafP 0 4 = false := by decide   -- a body with a call is not a leaf
+end leafdemo
 
 end PV.Props.C06
